@@ -4,7 +4,7 @@
    signals with a value table, the kind only; the full statement is
    Acme.C10.Proofs.import_signal_faithful_full_statement. *)
 From Coq Require Import String ZArith List.
-From Acme.C10 Require Import DbcDoc BusModel Import Bits BitsProofs Proofs ProofsEnum ProofsLayout ProofsFaithful ProofsMux ProofsExtMux ProofsDecode ProofsIds ProofsEnumMux ProofsAttrs ProofsAttrsAll ProofsTraverse ProofsAttrsSig ProofsExtAbs.
+From Acme.C10 Require Import DbcDoc BusModel Import Bits BitsProofs Proofs ProofsEnum ProofsLayout ProofsFaithful ProofsMux ProofsExtMux ProofsDecode ProofsIds ProofsEnumMux ProofsAttrs ProofsAttrsAll ProofsTraverse ProofsAttrsSig ProofsExtAbs ProofsGroups.
 Import ListNotations.
 Open Scope Z_scope.
 
@@ -222,3 +222,12 @@ Theorem import_ext_mux_abs : forall d b, import d = Ok b ->
   Forall2 (fun dm m => ext_mux_abs dm (m_signals m)) (d_messages d) (b_messages b).
 Proof. exact ProofsExtAbs.import_ext_mux_abs. Qed.
 Print Assumptions import_ext_mux_abs.
+
+(* layout validity INSIDE multiplexers, every message, every nesting depth: two children of one multiplexer
+   that share a group (a child without group list is fixed and shares every group) do not overlap, every
+   child lies inside the group size of its multiplexer - which is a signal of the message -, and its group ids
+   are below the group count; sizes read in the final enum table (top level: import_layout_valid) *)
+Theorem import_group_layout_valid : forall d b, import d = Ok b ->
+  Forall (fun m => groups_valid (b_enums b) (m_signals m)) (b_messages b).
+Proof. exact ProofsGroups.import_group_layout_valid. Qed.
+Print Assumptions import_group_layout_valid.
